@@ -386,7 +386,8 @@ type c11Run struct {
 	steps   []c11Step
 	obs     []c11Obs
 	sig     map[string]bool
-	skipped int // scripted steps (adversarial scenario only) that were not enabled
+	wrote   map[int]int // write gates released per call
+	skipped int         // scripted steps (adversarial scenario only) that were not enabled
 }
 
 func c11ErrClass(err error) string {
@@ -479,6 +480,10 @@ func (r *c11Run) apply(s c11Step, rnd *vfRand) {
 			r.skipped++
 			return
 		}
+		if r.wrote == nil {
+			r.wrote = map[int]int{}
+		}
+		r.wrote[s.T]++
 		g.ch <- s.Ok
 	case "answer":
 		w.mu.Lock()
@@ -667,7 +672,15 @@ func c11Case(t *testing.T, rnd *vfRand, i int, partial **c11Run) (r *c11Run, pro
 				cs = append(cs, cand{c11Step{Op: "dial", T: t, Ok: true}, prof.wDial}, cand{c11Step{Op: "dial", T: t, Ok: false}, prof.wDialFail})
 			}
 			if atWrite {
-				cs = append(cs, cand{c11Step{Op: "write", T: t, Ok: true}, prof.wWrite}, cand{c11Step{Op: "write", T: t, Ok: false}, prof.wWriteFail})
+				wOk, wFail := prof.wWrite, prof.wWriteFail
+				if prof.sequential { // successes after a retry are what advances ms.singleMes
+					if r.wrote[t] == 0 {
+						wOk, wFail = 15, 85
+					} else {
+						wOk, wFail = 95, 5
+					}
+				}
+				cs = append(cs, cand{c11Step{Op: "write", T: t, Ok: true}, wOk}, cand{c11Step{Op: "write", T: t, Ok: false}, wFail})
 			}
 			// a cancel while the call is in NewStream after a disconnect of its peer can reach
 			// Lock(ctx) with both select arms ready (Go picks at random): not generated
